@@ -219,7 +219,16 @@ def api_search(chk, n_cases):
                 ds = np.array(quiet(oqupy.tempo_compute, sysm, bath, rho0, start, start + n * dt, parameters=par, unique=unique, progress_type="silent").states)
             else:
                 t = oqupy.Tempo(sysm, bath, par, rho0, start, unique=unique)
-                ds = np.array(quiet(t.compute, start + n * dt, progress_type="silent").states)
+                if it % 2 == 0 and n >= 3:
+                    # the TEMPO propagation continued over several compute() calls (legs of one step and more)
+                    legs = sorted(set([1, rng.randint(2, n - 1)]))
+                    info["tempo_compute_calls"] = legs + [n]
+                    for k_ in legs:
+                        quiet(t.compute, start + k_ * dt, progress_type="silent")
+                dyn_t = quiet(t.compute, start + n * dt, progress_type="silent")
+                ds = np.array(dyn_t.states)
+                if len(dyn_t.times) != n + 1 or np.abs(np.array(dyn_t.times) - (start + dt * np.arange(n + 1))).max() > 1e-9:
+                    chk.fail("tempo-vs-pttempo-api", f"Tempo: the times of the (continued) computation are {list(np.round(dyn_t.times, 6))}, not start + k dt", info)
             # the process tensor in memory or written directly to a file (every run: the generic complex coupling of it == 2)
             file_backed = it == 2 or (it > 5 and rng.random() < 0.2)
             info["process_tensor"] = "file-backed" if file_backed else "memory"
